@@ -76,6 +76,12 @@ func progForward() []byte { // forwards half of the value to address calldata[0]
 	a.push(32).push(0).op(opRETURN)
 	return a.b
 }
+func progForwardAll() []byte { // forwards its WHOLE balance (what it held plus what it just received) to address calldata[0]; stores the success flag
+	a := &asm{}
+	a.push(0).push(0).push(0).push(0).op(opSELFBALANCE).push(0).op(opCALLDATALOAD).op(opGAS).op(opCALL)
+	a.push(1).op(opSSTORE).op(opSTOP)
+	return a.b
+}
 func progReverter() []byte { // writes storage, then reverts with 32 bytes of data
 	a := &asm{}
 	a.push(7).push(0).op(opSSTORE).push(0xdead).push(0).op(opMSTORE).push(32).push(0).op(opREVERT)
@@ -181,6 +187,7 @@ func (s *Sim) evmScenario(hs *EvmStats) error {
 			from := s.pick(s.users)
 			var spec *TxSpec
 			var name string
+			wholeBalance := false
 			k := r.Intn(100)
 			switch {
 			case k < 30 || len(contracts) == 0: // deployment
@@ -188,7 +195,7 @@ func (s *Sim) evmScenario(hs *EvmStats) error {
 					n string
 					c []byte
 				}{{"store", progStore(r)}, {"forward", progForward()}, {"reverter", progReverter()}, {"call-then-store", progCallThenStore()},
-					{"factory", progFactory(progStore(r))}, {"suicide", progSuicide()}, {"balance-reader", progBalanceReader()}}
+					{"factory", progFactory(progStore(r))}, {"suicide", progSuicide()}, {"balance-reader", progBalanceReader()}, {"forward-all", progForwardAll()}}
 				p := progs[r.Intn(len(progs))]
 				name = "deploy:" + p.n
 				spec = s.baseTx(6, from, make([]byte, 20))
@@ -210,6 +217,7 @@ func (s *Sim) evmScenario(hs *EvmStats) error {
 				}
 				spec.Data = arg
 				spec.Amount = fmt.Sprint(r.Intn(4) * 500)
+				wholeBalance = r.Intn(8) == 0
 				hs.Calls++
 			case k < 92: // plain transfer to a contract address
 				c := contracts[r.Intn(len(contracts))]
@@ -224,6 +232,15 @@ func (s *Sim) evmScenario(hs *EvmStats) error {
 			spec.Gas = uint64(300000 + r.Intn(700000))
 			if r.Intn(12) == 0 {
 				spec.Gas = uint64(21000 + r.Intn(40000)) // often runs out of gas
+			}
+			if wholeBalance {
+				// the sender spends everything it has: amount = balance - gas limit x price, exactly
+				price, _ := new(big.Int).SetString(spec.GasPrice, 10)
+				fee := new(big.Int).Mul(price, new(big.Int).SetUint64(spec.Gas))
+				if rest := new(big.Int).Sub(s.balOf(from.Addr), fee); rest.Sign() > 0 {
+					spec.Amount = rest.String()
+					name += ":whole-balance"
+				}
 			}
 			spec.Note = name
 			hs.Programs[name]++
